@@ -135,6 +135,25 @@ def check(rep):
         d = layers.mol_diff(mo, io)
         if d:
             rep.fail("correspondence", f"molecule layer on {t!r}: " + "; ".join(d[:3]), {"layer": "molecule-model", "text": t}, expected=str(mo)[:400], observed=str(io)[:400])
+    # ---- extraction check: the kernel (vm_compute inside coqc) and the extracted OCaml code evaluate the SAME model functions on the same texts
+    import kernel_eval
+    kd = []
+    tgk = tokast.Gen(random.Random(rep.seed + 204), max_depth=3)
+    for _ in range(60 if quick else 600):
+        d = tgk.bd()
+        kd.append(("[" + d[2] + d[3] + d[4] + "]", d[1]))
+    kd += [("[$||]", ""), ("[<1| |]", "="), ("[$", ""), ("[>|1e1 .5|]", "#")]
+    kt = [tokast.print_chain(tgk.token()) for _ in range(60 if quick else 600)] + ["C(", "[$]CC(=[$])C", "C[x]"]
+    km = mtexts[: (50 if quick else 500)] + ["CC.|5|C", "{", "C{[$][$]C[$][$]}|gauss(1,2)|C.|5%|"]
+    try:
+        kr = kernel_eval.run(kd, kt, km, tag="C02_kernel")
+        rep.coverage["kernel_vs_extraction"] = {k: {"cases": v[0], "mismatches": len(v[1])} for k, v in kr.items()}
+        for layer, (n, pos, items) in kr.items():
+            for i in pos[:3]:
+                rep.fail("correspondence", f"extraction: the kernel's evaluation of the {layer} model differs from the extracted code on {items[i]!r}", {"layer": "extraction:" + layer, "text": str(items[i])},
+                         expected="identical renderings", observed="different")
+    except Exception as e:  # noqa
+        rep.fail("correspondence", f"extraction check could not be evaluated: {str(e)[:200]}", {"layer": "extraction"}, expected="kernel evaluation", observed=fw.exc_class(e))
     rep.coverage["molecules_vs_model"] = len(mtexts)
     rep.coverage["molecules_accepted"] = n_molk
     rep.coverage["objects_vs_model"] = len(objs)
